@@ -59,6 +59,10 @@ def gen_case(seed):
                   'final_newline': code.endswith(b'\n'), 'luagen': True}
     else:
         code, cstats = cartgen.filler_code(ch, crlf=crlf)
+    if seed[-7] % 16 == 3 and code:
+        # the very last line end is a bare CR (old Mac style): the lexer takes it as a line end, the .p8 format does not
+        code = (code[:-1] if code.endswith(b'\n') else code).rstrip(b'\r') + b'\r'
+        cstats = dict(cstats, final_newline=False, final_cr=True)
     return {'mem': mem, 'modes': modes, 'version': version, 'label': label, 'code': code,
             'cstats': cstats, 'crlf': crlf}
 
@@ -236,6 +240,8 @@ def one(ctx, seed, via):
         labs.append('no_final_newline')
     if c['crlf']:
         labs.append('crlf')
+    if c['cstats'].get('final_cr'):
+        labs.append('code_ends_in_bare_cr')
     if c['version'] > 255:
         labs.append('version>255')
     if c['cstats'].get('luagen'):
@@ -339,7 +345,8 @@ def replay(case):
 def vacuity(total, tier):
     msgs = []
     for lab in ('label', 'no_label', 'no_final_newline', 'via_cli', 'via_file', 'loaded_then_edited', 'untouched_sfx', 'big_oneline', 'big_lines',
-                'big_over_chars', 'big_over_tokens', 'big_line_counts', 'big_header_like', 'awkward_file_name'):
+                'big_over_chars', 'big_over_tokens', 'big_line_counts', 'big_header_like', 'awkward_file_name',
+                'code_ends_in_bare_cr'):
         if total.classes.get(lab, 0) < 3:
             msgs.append('class %s seen %d times' % (lab, total.classes.get(lab, 0)))
     return msgs
